@@ -29,6 +29,8 @@
 import EasyMl.Lemmas.Determinism
 import EasyMl.Lemmas.TapePositions
 import EasyMl.Props.C09
+import EasyMl.Props.C15
+import EasyMl.Model.Survivor
 
 namespace EasyMl.C18
 open EasyMl EasyMl.Spec EasyMl.Iter
@@ -168,6 +170,70 @@ example :
     reverseSweep ops 2 = .ok [7, 5, 1] ∧
       reverseSweep (pre ++ ops.map (Op.shift pre.length)) 4 = .ok [0, 0, 7, 5, 1] := by
   constructor <;> rfl
+
+/-! ## answers depend on the logical content only (the Lean anchor of the `@ alloc` family)
+
+  The models carry no allocation state at all: a tape is the list of its operations, a matrix is
+  `(data, rows, columns)`, a tensor `(data, shape, strides)`.  So "two objects with the same
+  logical content give the same answers, whatever was stored in them (or in their backing `Vec`)
+  before" is a congruence on the model side; the harness shows on every run that the real code
+  answers objects built along different allocation routes identically (`@ alloc …`), which is
+  what ties these statements to the code. -/
+
+/-- **Tapes.**  (i) The derivatives of a record depend only on the content of its own tape: two
+    worlds that agree on that tape give the same derivatives (whatever the other tapes hold, and
+    whatever was on this tape before it was cleared and re-filled).  (ii) Clearing a list on which
+    anything was recorded and resetting the records in use is indistinguishable from creating the
+    same variables on a brand-new list: same records, same tape, and every program run afterwards
+    gives the same outcome and the same derivatives (C15 `clear_reset_equiv_fresh_world`). -/
+theorem answers_depend_on_logical_content_tape {R : Type} [CommRing R] [Div R] [RealFns R] :
+    (∀ (r : Rec R) (w1 w2 : World R) (t : Nat), (r.history = none ∨ r.history = some t) →
+      w1 t = w2 t → r.derivatives w1 = r.derivatives w2) ∧
+    (∀ (w wf : World R) (t : Nat), wf t = [] → ∀ (rs : List (Rec R)),
+      (∀ r ∈ rs, r.history = some t) → ∀ (p : Prog R) (env : Nat → R),
+      let live := resetAll rs (w.clear t)
+      let fresh := mkVars (rs.map (·.number)) t wf
+      let runL := Prog.execFrom t env p live.2 live.1
+      let runF := Prog.execFrom t env p fresh.2 fresh.1
+      live.1 = fresh.1 ∧ live.2 t = fresh.2 t ∧ runL.2 = runF.2 ∧ runL.1 t = runF.1 t ∧
+        ∀ recs, runL.2 = .ok recs → ∀ k,
+          (getRec recs k).derivatives runL.1 = (getRec recs k).derivatives runF.1) :=
+  ⟨fun r w1 w2 t hr hw => derivatives_frame r w1 w2 t hr hw,
+   fun w wf t hf rs hrs p env => C15.clear_reset_equiv_fresh_world w wf t hf rs hrs p env⟩
+
+/-- non-vacuity: a world whose tape 0 held three entries before `clear`, and a fresh one -/
+example : (World.clear (fun _ => [⟨0, 0, 0, 0⟩, ⟨0, 1, 2, 0⟩, ⟨0, 1, 1, 1⟩] : World Int) 0) 0 =
+    (World.empty : World Int) 0 := rfl
+
+/-- **Matrices and tensors.**  The model of a matrix has exactly the fields `data`, `rows`,
+    `columns` (a tensor: `data`, `shape`, `strides`) — no capacity, no allocation history.  Two
+    models with equal fields are equal, hence every operation, every history and every iterator
+    of the models answers them identically: resizing operations incl. user code panicking at any
+    call (`Matrix.xexec`), the survivor operations on tensors (`Survivor.exec`). -/
+theorem answers_depend_on_logical_content_containers {ν α : Type} [DecidableEq ν] [Inhabited ν] :
+    (∀ (m1 m2 : Matrix α), m1.data = m2.data → m1.rows = m2.rows → m1.columns = m2.columns →
+      m1 = m2 ∧ (∀ x : Matrix.XOp α, m1.xexec x = m2.xexec x) ∧
+        ∀ xs : List (Matrix.XOp α), m1.xrun xs = m2.xrun xs) ∧
+    (∀ (t1 t2 : Tensor ν α), t1.data = t2.data → t1.shape = t2.shape → t1.strides = t2.strides →
+      t1 = t2 ∧ (∀ op : Survivor.Op ν α, (Survivor.exec t1 op).state = (Survivor.exec t2 op).state) ∧
+        ∀ ops : List (Survivor.Op ν α), Survivor.run t1 ops = Survivor.run t2 ops) := by
+  constructor
+  · intro m1 m2 h1 h2 h3
+    have e : m1 = m2 := by cases m1; cases m2; simp_all
+    subst e
+    exact ⟨rfl, fun _ => rfl, fun _ => rfl⟩
+  · intro t1 t2 h1 h2 h3
+    have e : t1 = t2 := by cases t1; cases t2; simp_all
+    subst e
+    exact ⟨rfl, fun _ => rfl, fun _ => rfl⟩
+
+/-- non-vacuity: the 3×2 matrix of seeded change C18-r5m2, reached by `remove_row` from a 4×2 one
+    and built directly, and `insert_row(0, 9)` on both -/
+example :
+    ((⟨[1, 2, 3, 4, 5, 6, 7, 8], 4, 2⟩ : Matrix Nat).exec (.removeRow 3)).state = ⟨[1, 2, 3, 4, 5, 6], 3, 2⟩ ∧
+      ((⟨[1, 2, 3, 4, 5, 6], 3, 2⟩ : Matrix Nat).exec (.insertRow 0 9)).state =
+        ⟨[9, 9, 1, 2, 3, 4, 5, 6], 4, 2⟩ := by
+  exact ⟨rfl, rfl⟩
 
 /-! ## iteration order -/
 
